@@ -445,7 +445,7 @@ def w5(ctx):
     c04.run(sub)
     n = 0
     for o in sub.obs:
-        if o.rule in ("R4a", "R4b", "R4e", "R4f", "R4h", "R4j", "R4k"):
+        if o.rule in ("R4a", "R4b", "R4e", "R4f", "R4h", "R4j", "R4k", "R4l"):
             if o.rule == "R4b" and ("::udp::" in o.key or o.key.split("|")[1].endswith("decode_packet")):
                 continue        # datagram framings belong to C02
             n += 1
